@@ -788,7 +788,7 @@ def wait_parked(w, callers, timeout=40.0):
         if any(c.done for c in callers):
             return "premature"
         if w.spec["stall"] and not w.stall.hit.is_set():
-            time.sleep(0.01)
+            time.sleep(0.02)
             continue
         frames = sys._current_frames()
         key = (tuple(proj(stack_of(c.ident, frames)) for c in callers), w.activity())
@@ -1043,7 +1043,7 @@ def run_case(a):
         while time.monotonic() < end:
             if inj["done"].is_set() and not w.V.is_active():
                 return True
-            time.sleep(0.005)
+            time.sleep(0.02)
         return False
 
     callers = []
@@ -1096,7 +1096,7 @@ def run_case(a):
             # the caller went to sleep before executing k lines
             if (not w.spec["stall"] or w.stall.hit.is_set()) and tr.times and time.monotonic() - tr.times[-1] > (1.0 if w.spec["stall"] else 3.0):
                 break
-            time.sleep(0.005)
+            time.sleep(0.02)
         res["k_reached"] = reached
         res["k"] = tr.k
         res["k_where"] = tr.where
